@@ -159,6 +159,14 @@ class Closure(V):
         self.fdef, self.env, self.name, self.wrapper = fdef, env, name, wrapper
 
 
+class OpaqueFn(V):
+    """a callable parameter / method treated as an uninterpreted pure function of its (encoded) arguments."""
+
+    def __init__(self, name, rsort, pure=True):
+        self.name, self.rsort, self.pure = name, rsort, pure
+        self.decl = None
+
+
 class KwArgs(V):
     """**kwargs captured at function entry (concrete keys)."""
 
@@ -428,6 +436,20 @@ def expand_atoms(f, consts, cache=None, atom_terms=None):
             if any(d is None for d in doms):
                 return None
             return [c(*combo) for combo in itertools.product(*doms)]
+        if isinstance(sort, z3.ArraySortRef) and sort.range() == B:
+            try:
+                dom = values(sort.domain()) if sort.arity() == 1 else None
+            except Exception:
+                dom = None
+            if dom is not None and len(dom) <= 9:
+                out = []
+                for bits in itertools.product((False, True), repeat=len(dom)):
+                    a = z3.K(sort.domain(), z3.BoolVal(False))
+                    for dv, bit in zip(dom, bits):
+                        if bit:
+                            a = z3.Store(a, dv, True)
+                    out.append(a)
+                return out
         return None
 
     def rec(e):
@@ -998,6 +1020,12 @@ class Executor:
         self.loop_counter += 1
         return k
 
+    def is_generator(self, fdef):
+        for n in ast.walk(fdef):
+            if isinstance(n, (ast.Yield, ast.YieldFrom)):
+                return True
+        return False
+
     def number_loops(self, fdef):
         """static numbering of For/While nodes in source order (independent of unrolling/summaries)."""
         self.loop_ids = {}
@@ -1078,7 +1106,15 @@ class Executor:
         if has_yield:
             emit_names.add("__yield__")
             st.env.setdefault("__yield__", Coll("list", None, None, items=[]))
-        if not emit_names or (mutated - emit_names):
+        # names first bound inside the body are per-iteration locals (e.g. `delta = ..; delta += ..`)
+        plain = set()
+        for n in ast.walk(ast.Module(body=list(node.body), type_ignores=[])):
+            if isinstance(n, ast.Assign):
+                for t in n.targets:
+                    if isinstance(t, ast.Name):
+                        plain.add(t.id)
+        locals_ = {n for n in plain if n not in st.env}
+        if not emit_names or (mutated - emit_names - locals_):
             return False
         reads = set()
         for n in ast.walk(ast.Module(body=list(node.body), type_ignores=[])):
@@ -1099,7 +1135,14 @@ class Executor:
         if assigned & emit_names:
             return False
         c0 = next(_fresh)
-        x = fresh("it", it.esort)
+        if is_tuple_sort(it.esort):
+            # bind the components: quantifiers over names trigger far better than over tuples
+            ctor = it.esort.constructor(0)
+            xs = [fresh("itc", ctor.domain(i)) for i in range(ctor.arity())]
+            x = ctor(*xs)
+        else:
+            x = fresh("it", it.esort)
+            xs = [x]
         s2 = st.fork()
         for t in emit_names:
             s2.env[t].recording = []
@@ -1143,7 +1186,7 @@ class Executor:
             disj = []
             for cond, kind, val in ems:
                 body = z3.And(it.mem[x], cond, deq(y, val) if kind == "elem" else val[y])
-                bound = [x] + [c for c in self.fresh_consts_in(body, c0) if not c.eq(x) and not c.eq(y)]
+                bound = list(xs) + [c for c in self.fresh_consts_in(body, c0) if not any(c.eq(q) for q in xs) and not c.eq(y)]
                 disj.append(z3.Exists(bound, body))
             if getattr(T, "recording", None) is not None:
                 # nested summarised loop inside a summarised loop: emit the whole set to the outer recorder
@@ -1487,6 +1530,9 @@ class Executor:
                 return z3.And(sub_ba, z3.Not(sub_ab))
         if isinstance(a, Scalar) and isinstance(b, Scalar) and a.z.sort() in (I, R) and b.z.sort() in (I, R):
             az, bz = a.z, b.z
+            if az.sort() != bz.sort():
+                az = z3.ToReal(az) if az.sort() == I else az
+                bz = z3.ToReal(bz) if bz.sort() == I else bz
             return {ast.Lt: az < bz, ast.LtE: az <= bz, ast.Gt: az > bz, ast.GtE: az >= bz}[type(op)]
         raise Unsupported(f"comparison {type(op).__name__} on {a!r},{b!r}")
 
@@ -1558,18 +1604,38 @@ class Executor:
             if isinstance(op, ast.Add) and a.kind == b.kind and a.kind in ("list", "tuple"):
                 a, b = self.materialise(a, b), self.materialise(b, a)
                 items = (a.items + b.items) if (a.items is not None and b.items is not None and len(a.items) + len(b.items) <= 4) else None
-                return Coll(a.kind, a.esort, union(a.mem, b.mem, a.esort), items=items, nodup=False)
+                r = Coll(a.kind, a.esort, union(a.mem, b.mem, a.esort), items=items, nodup=False)
+                la, lb = self.length_of(a, st), self.length_of(b, st)
+                if la is not None and lb is not None:
+                    r.len_z = la + lb
+                return r
         if isinstance(a, Scalar) and isinstance(b, Scalar) and a.z.sort() in (I, R) and b.z.sort() in (I, R):
+            az, bz = a.z, b.z
+            if az.sort() != bz.sort():
+                az = z3.ToReal(az) if az.sort() == I else az
+                bz = z3.ToReal(bz) if bz.sort() == I else bz
             if isinstance(op, ast.Add):
-                return Scalar(a.z + b.z)
+                return Scalar(az + bz)
             if isinstance(op, ast.Sub):
-                return Scalar(a.z - b.z)
+                return Scalar(az - bz)
             if isinstance(op, ast.Mult):
-                return Scalar(a.z * b.z)
+                return Scalar(az * bz)
         r = self.lib.binop(self, op, a, b, st)
         if r is not None:
             return r
         raise Unsupported(f"binary op {type(op).__name__} on {a!r},{b!r}")
+
+    def length_of(self, c, st):
+        """symbolic len() of a collection, or None when the abstraction cannot know it."""
+        if c.len_z is not None:
+            return c.len_z
+        if c.items is not None and (c.kind not in ("set", "frozenset") or len(c.items) <= 1):
+            return z3.IntVal(len(c.items))
+        if c.mem is None:
+            return z3.IntVal(0)
+        if c.nodup:
+            return self.lib.card(self, c, st)
+        return None
 
     def materialise(self, c, other):
         if c.mem is None:
@@ -1725,6 +1791,8 @@ class Executor:
             return self.call_method(f.recv, f.name, args, kwargs, st, node)
         if isinstance(f, Closure):
             return self.inline(f, args, kwargs, st)
+        if isinstance(f, OpaqueFn):
+            return self.call_opaque(f, args, kwargs, st)
         if isinstance(f, Coll) and not args:
             return f  # NodeView / EdgeView called as G.nodes() / G.edges()
         if isinstance(f, ClassV):
@@ -1753,6 +1821,8 @@ class Executor:
                     if fdef is not None:
                         self.inlined.add(q)
                         return self.inline(Closure(fdef, {}, q), [recv] + list(args), kwargs, st)
+        if isinstance(recv, Obj) and name in recv.fields.get("__opaque__", {}):
+            return self.call_opaque(recv.fields["__opaque__"][name], args, kwargs, st)
         if isinstance(recv, Obj):
             # 1. contract on a repo method  2. library contract  3. inline repo source
             if recv.cls.startswith("super:"):
@@ -1781,6 +1851,44 @@ class Executor:
         if r is not NotImplemented:
             return r
         raise Unsupported(f"method {name} on {recv!r}")
+
+    def encode_arg(self, v):
+        """z3 encoding(s) of a value passed to an uninterpreted function."""
+        if isinstance(v, Coll):
+            if v.mem is None:
+                raise Unsupported("empty untyped collection passed to an opaque function")
+            return [v.mem]  # order / multiplicity of list arguments is abstracted (stated assumption)
+        if isinstance(v, Obj) and "_E" in v.fields:
+            return [v.fields["_nodes"], v.fields["_E"]]
+        if isinstance(v, NoneV):
+            return []
+        return [z3_of(v)]
+
+    def call_opaque(self, f, args, kwargs, st):
+        if kwargs:
+            raise Unsupported("keyword arguments to an opaque function")
+        zs = []
+        for a in args:
+            zs += self.encode_arg(a)
+        if not f.pure:
+            return Scalar(fresh(f.name + "_ret", f.rsort))
+        key = (f.name, tuple(str(z.sort()) for z in zs))
+        decls = self.__dict__.setdefault("_opaque_decls", {})
+        if key not in decls:
+            decls[key] = z3.Function(f"{f.name}#{len(decls)}", *[z.sort() for z in zs], f.rsort) if zs else None
+            if zs and any(isinstance(z.sort(), z3.ArraySortRef) for z in zs):
+                # extensional congruence for set-valued arguments (arrays built differently but with the same
+                # members must give the same value): forall args, args'. (args ==ext args') => f(args) == f(args')
+                d = decls[key]
+                xs = [fresh("ca", z.sort()) for z in zs]
+                ys = [fresh("cb", z.sort()) for z in zs]
+                ax = z3.ForAll(xs + ys, z3.Implies(z3.And(*[deq(x, y) for x, y in zip(xs, ys)]), d(*xs) == d(*ys)),
+                               patterns=[z3.MultiPattern(d(*xs), d(*ys))])
+                self.axioms.append(ax)
+        self.assumed.add(f"{f.name}(...) is an uninterpreted pure function of its arguments (list arguments by membership only)")
+        if not zs:
+            return Scalar(z3.Const(f.name + "()", f.rsort))
+        return Scalar(decls[key](*zs))
 
     def apply_contract(self, c, recv, args, kwargs, st):
         self.used_contracts.add(c.qual)
@@ -1890,9 +1998,15 @@ class Executor:
                     raise Unsupported("len of a set literal with possibly equal members")
                 return Scalar(z3.IntVal(len(v.items)))
             if isinstance(v, Coll):
-                return Scalar(self.lib.card(self, v, st))
+                n = self.length_of(v, st)
+                if n is None:
+                    raise Unsupported("len() of a list whose multiplicities are abstracted")
+                return Scalar(n)
             if isinstance(v, Scalar) and isinstance(v.z.sort(), z3.ArraySortRef):
                 return Scalar(self.lib.card(self, Coll("frozenset", v.z.sort().domain(), v.z), st))
+            r = self.lib.len_hook(self, v, st)
+            if r is not None:
+                return Scalar(r)
             raise Unsupported("len")
         if name == "hasattr":
             v = args[0]
@@ -1917,6 +2031,15 @@ class Executor:
             return self.lib.super_(self, args, st)
         if name == "hash":
             return Scalar(self.lib.hash_(self, args[0], st))
+        if name == "map" and len(args) == 2 and isinstance(args[0], Closure):
+            c = self.as_coll(args[1], st)
+            if c.mem is None:
+                return Coll("list", None, None, items=[])
+            x = fresh("m", c.esort)
+            e = self.inline(args[0], [val_of(x)], {}, st)
+            ez = z3_of(e)
+            y = fresh("y", ez.sort())
+            return Coll("list", ez.sort(), z3.Lambda([y], z3.Exists([x], z3.And(c.mem[x], deq(y, ez)))), nodup=False)
         if name == "dict" and not args:
             return DictV(None, "scalar", None, None)
         if name in ("str",) and isinstance(args[0], Scalar):
@@ -2100,6 +2223,8 @@ class Executor:
             for s, o in outs:
                 if o.kind in ("return", "normal"):
                     res = o.value if o.kind == "return" else NONE
+                    if self.is_generator(fdef):
+                        res = s.env.get("__yield__", Coll("list", None, None, items=[]))
                     n_ret += 1
                     if exc:
                         self.oblige(s, z3.Not(any_exc), "no-spurious-return")
